@@ -126,7 +126,7 @@ def cmd_setup(args):
     bad = [n for n, (path, dis, log) in res.items() if path is None]
     rt, _ = footprint_checks.build_rt()
     with cf.ThreadPoolExecutor(max_workers=C.NCPU) as ex:
-        futs = [ex.submit(footprint_checks.build_foot, l, "AE", rt) for l in ["P1", "F1", "F3", "V1", "V3", "M1"]]
+        futs = [ex.submit(footprint_checks.build_foot, l, "AE", rt) for l in ["P1", "P3", "F1", "F2", "F3", "V1", "V2", "V3", "V5", "M1", "M2"]]
         futs.append(ex.submit(footprint_checks.build_readers))
         futs += [ex.submit(probe_checks.cell_table, l) for l in engine_checks.ALL_LISTS]
         for f in futs:
